@@ -1,6 +1,6 @@
 (* C02 - property theorems.  Model: V.C02.Model (SmodelsConvert/SmData call-for-call, SmodelsOutput's acceptance
    conditions); specification-side definitions: V.C02.Spec; reference semantics: V.C02.Sem. *)
-Require Import V.Lib.Base V.Lib.Calls V.Gen.Consts V.Gen.Consts_C02 V.C02.Model V.C02.Spec V.C02.ProofsMap V.C02.ProofsErr V.C02.Sem V.C02.ProofsSem V.C02.ProofsIso V.C02.ProofsShape V.C02.ProofsDefExt V.C02.ProofsWeight V.C02.ProofsOutput V.C02.ProofsExt V.C02.ProofsCompose.
+Require Import V.Lib.Base V.Lib.Calls V.Gen.Consts V.Gen.Consts_C02 V.C02.Model V.C02.Spec V.C02.ProofsMap V.C02.ProofsErr V.C02.Sem V.C02.ProofsSem V.C02.ProofsIso V.C02.ProofsShape V.C02.ProofsDefExt V.C02.ProofsWeight V.C02.ProofsOutput V.C02.ProofsExt V.C02.ProofsCompose V.C02.ProofsCore V.C02.ProofsHeu V.C02.ProofsSteps V.C02.ProofsFinal V.C02.ProofsHeuShape.
 Local Open Scope Z_scope.
 
 (* (1) The atom map.  For EVERY call sequence p (any mix of directives, any number of steps, extensions on or off) that the
@@ -323,10 +323,9 @@ Qed.
    false / release = nothing).  Without the extensions Pout has no external declarations - they have become the choice rule /
    facts among its rules; with the extensions Pout declares `external(m a, value)` (c02_external_pass) and Sem.answer reads
    them the same way; in both modes the bijection of answer sets is therefore the statement "same behaviour of externals".
-   REMAINING GAP to the full c02_equiv: (b) heuristic / edge directives under ext = true (their `aux :- cond` is covered by
-   c02_defext, but the `_heuristic(..)` / `_edge(..)` / `_atom(..)` symbols add shown names the input does not have, so the
-   shown-name clause needs a statement modulo those names); (c) several steps (ext = true only; c02_map gives the stability
-   of the map across steps; fresh_step would become "head flags = heads of earlier steps"). *)
+   The two gaps this theorem left are closed below: (b) heuristic / edge directives under ext = true - (10), (11);
+   (c) several steps - (12) c02_steps; externals separately - (13); everything together - (14) c02_equiv.  This theorem
+   is kept because it holds from ANY fresh start state and is the ext = false half of c02_equiv. *)
 Theorem c02_equiv_partial2 : forall ext ds s0 s1 o1 s2 o2,
   forallb okc ds = true -> Forall call_wf ds -> Inv s0 -> fresh_step s0 ->
   cv_run ext s0 ds = Ok (s1, o1) -> cv_call ext s1 CEnd = Ok (s2, o2) -> next s2 <= 2 ^ smid_bits ->
@@ -371,4 +370,305 @@ Proof.
       repeat split; vm_compute; reflexivity.
     + do 4 eexists. split; [vm_compute; reflexivity|]. split; [vm_compute; reflexivity|]. split; [vm_compute; discriminate|].
       split; vm_compute; reflexivity.
+Qed.
+
+(* (10) Heuristic and edge directives (extensions on).  HELPER NAMES, defined from the format strings of src/convert.cpp
+   (V.Gen.Consts: fmt_atom = "_atom(%u)", fmt_edge = "_edge(%d,%d)", fmt_heuristic = "_heuristic(%s,%s,%d,%u)"):
+     helper_name n  :=  n = atom_name k  \/  n = edge_name x y  \/  n = heu_text name type bias prio
+   (atom_name / edge_name are the C-string views `cut0` of the formatted text; c02_helper_names: the cut is the identity, and
+   every helper name starts with '_').
+   Shape (c02_heuristic_edge_shape): a heuristic / edge call behaves like the output call `tr c` (same condition, a helper
+   name): in terms of the atom map of any later state it emits nothing when the condition is one positive literal whose atom
+   has no name yet (that atom is then the condition atom) or `aux :- renamed condition` with aux = newAtom() in
+   [next s, next s1), an auxiliary atom; every condition atom is mapped; an edge appends the symbol (`_edge(s,t)`, condition
+   atom) to output_, a heuristic appends nothing to output_ (symsT).  The semantic content of `aux :- cond` is c02_defext.
+   Flush (c02_heuristic_flush): flushHeuristic leaves the head / external flags and extern_ alone, emits only calls
+   `output(helper name, [y])`, and appends only helper-named symbols (`_atom(k)`) to output_. *)
+Theorem c02_heuristic_edge_shape : forall sf s c s1 out,
+  is_heu c || is_edge c = true -> cv_call true s c = Ok (s1, out) -> Inv s -> good s1 sf -> next sf <= 2 ^ smid_bits ->
+  exists ann, out = emitA (img sf) (tr c) ann /\ ann_ok (tr c) ann /\ mappedA (img sf) (tr c) /\
+    match ann with Some x => next s <= x < next s1 /\ In x (auxs sf) | None => True end /\
+    map sym_na (outs s1) = map sym_na (outs s) ++ symsT (img sf) c ann.
+Proof. exact heu_edge_shape. Qed.
+Print Assumptions c02_heuristic_edge_shape.
+
+Theorem c02_heuristic_flush : forall hs s,
+  hfx nof s (fst (flushHeuristic_f s hs)) /\
+  Forall (fun c => exists n y, c = COutput n [y] /\ helper_name n) (snd (flushHeuristic_f s hs)) /\
+  exists L, map sym_na (outs (fst (flushHeuristic_f s hs))) = map sym_na (outs s) ++ L /\
+            Forall (fun e => helper_name (fst e)) L.
+Proof. exact flushHeuristic_props. Qed.
+Print Assumptions c02_heuristic_flush.
+
+(* exact forms.  The entry a heuristic call queues: (atom, type, bias, prio, hp) with hp the image of the single positive,
+   not yet named condition atom (nothing emitted) or the head of the emitted `hp :- renamed condition`.  What flushHeuristic
+   emits: the atom map is unchanged, and there is exactly one output per queued entry whose atom is mapped, in queue order,
+   `_heuristic(<name>,<type>,<bias>,<prio>)` on the queued condition atom, <name> being the atom's name in symTab_ (as it
+   is after the flush) or `_atom(<image>)`. *)
+Theorem c02_heuristic_queue : forall s a t b p cond s1 out sf,
+  cv_call true s (CHeuristic a t b p cond) = Ok (s1, out) -> Inv s -> good s1 sf -> next sf <= 2 ^ smid_bits ->
+  exists hp, heus s1 = heus s ++ [mkH a t b p hp] /\
+    ((exists c0, cond = [c0] /\ 0 <= c0 /\ out = [] /\ hp = img sf c0) \/
+     (out = [CRule Head_t_Disjunctive [hp] (map (rn_lit (img sf)) cond)] /\ next s <= hp < next s1 /\ In hp (auxs sf))).
+Proof. exact heu_call_queue. Qed.
+Print Assumptions c02_heuristic_queue.
+
+Theorem c02_heuristic_emits : forall hs s,
+  (forall b, img (fst (flushHeuristic_f s hs)) b = img s b) /\
+  Forall2 (fun h c => exists nm,
+             c = COutput (heu_text nm (heu_name (h_type h) heu_names) (h_bias h) (h_prio h)) [h_cond h] /\
+             (nm = atom_name (img s (h_atom h)) \/
+              sym_find (img s (h_atom h)) (symtab (fst (flushHeuristic_f s hs))) = Some nm))
+          (filter (fun h => mapped s (h_atom h)) hs) (snd (flushHeuristic_f s hs)).
+Proof. exact flushHeuristic_exact. Qed.
+Print Assumptions c02_heuristic_emits.
+
+Theorem c02_helper_names :
+  (forall n, helper_name n -> hd 0 n = 95) /\
+  (forall x y, edge_name x y = format fmt_edge [FD x; FD y]) /\
+  (forall k, 0 <= k -> atom_name k = format fmt_atom [FU k]).
+Proof. exact (conj helper_underscore (conj edge_name_plain atom_name_plain)). Qed.
+Print Assumptions c02_helper_names.
+
+(* (11) c02_equiv_heu_step: the one-step composition c02_equiv_partial2 extended to steps that contain heuristic / edge
+   directives (extensions on; okx = rule / weight rule / minimize / output / external / heuristic / edge; call_wfX = call_wf,
+   and literals <> 0 in heuristic / edge conditions), from any state with the map invariant that is fresh for the step.
+   Same conclusion, with atoms = the mapped atoms of the step including those of heuristic / edge conditions (xatoms) and
+   "same shown names" stated MODULO EXACTLY THE HELPER NAMES: for every name that is not a helper name, it is shown by X in
+   the input iff it is shown by fw X in the output (in particular every output name that the input does not show is a helper
+   name).  The second part is the external status statement of (13) for the step. *)
+Theorem c02_equiv_heu_step : forall ds s0 s1 o1 s2 o2,
+  forallb okx ds = true -> Forall call_wfX ds -> Inv s0 -> fresh_step s0 ->
+  cv_run true s0 ds = Ok (s1, o1) -> cv_call true s1 CEnd = Ok (s2, o2) -> next s2 <= 2 ^ smid_bits ->
+  let m := img s2 in let Pin := of_calls ds in let Pout := of_calls (o1 ++ o2) in let atoms := xatoms m ds in
+  (exists fw : interp -> interp,
+    (forall a b, In a atoms -> In b atoms -> m a = m b -> a = b) /\
+    (forall X, answer Pin X ->
+       answer Pout (fw X) /\ (forall a, In a atoms -> fw X (m a) = X a) /\
+       (forall n, ~ helper_name n -> (shown Pin X n <-> shown Pout (fw X) n)) /\
+       (forall prio, cost (p_min Pout) prio (fw X) = cost (p_min Pin) prio X - negs ds prio)) /\
+    (forall X', answer Pout X' -> answer Pin (pull m atoms X') /\ forall y, fw (pull m atoms X') y = X' y) /\
+    (forall X a, answer Pin X -> pull m atoms (fw X) a = X a)) /\
+  ((forall a, m a <> 0 -> ext_status Pout (m a) = ext_status Pin a) /\
+   (forall y w, ext_status Pout y = Some w -> exists a, y = m a /\ In a atoms /\ ext_status Pin a = Some w) /\
+   (forall a w, ext_status Pin a = Some w -> In a atoms /\ m a <> 0)).
+Proof. exact equiv_heu_step. Qed.
+Print Assumptions c02_equiv_heu_step.
+
+Definition heu_demo : list call :=
+  [CRule 1 [1; 2; 3] []; COutput [97] [1]; CHeuristic 1 0 1 2 [2]; CHeuristic 2 1 (-1) 0 [1; -3]; CEdge 0 1 [3]; CEdge 1 0 [-1];
+   CHeuristic 9 4 1 1 []].
+Ltac wf_tac :=
+  repeat match goal with
+         | |- Forall _ (_ :: _) => apply Forall_cons
+         | |- Forall _ [] => apply Forall_nil
+         | |- nul_free _ => unfold nul_free
+         | |- _ /\ _ => split
+         | |- _ \/ _ => first [left; reflexivity | right; reflexivity]
+         | |- _ => progress simpl
+         | |- _ => lia
+         end.
+Example c02_equiv_heu_step_nonvacuous :
+  (* {a;b;c}. #show a/0 (named "a").  heuristic on a (named: `_heuristic(a,level,1,2)`, condition atom b itself);
+     heuristic on b (no name: `_atom(3)` + `_heuristic(_atom(3),sign,-1,0)`, compound condition -> aux 5);
+     edge(0,1) : c (atom 4 itself), edge(1,0) : not a (aux 6); heuristic on the unmapped atom 9 (skipped, but its aux 7 stays) *)
+  forallb okx heu_demo = true /\ Forall call_wfX heu_demo /\ Inv cv0 /\ fresh_step cv0 /\
+  (exists s1 o1 s2 o2, cv_run true cv0 heu_demo = Ok (s1, o1) /\ cv_call true s1 CEnd = Ok (s2, o2) /\ next s2 <= 2 ^ smid_bits /\
+     rules_of (o1 ++ o2) = [mkRule true [2; 3; 4] (BNormal []); mkRule false [5] (BNormal [2; -4]);
+                            mkRule false [6] (BNormal [-2]); mkRule false [7] (BNormal [])] /\
+     outs_of (o1 ++ o2) =
+       [(heu_text [97] [108; 101; 118; 101; 108] 1 2, [3]); (heu_text (atom_name 3) [115; 105; 103; 110] (-1) 0, [5]);
+        ([97], [2]); (atom_name 3, [3]); (edge_name 0 1, [4]); (edge_name 1 0, [6])]) /\
+  ~ helper_name [97] /\ helper_name (edge_name 0 1).
+Proof.
+  split; [reflexivity|]. split; [unfold heu_demo; wf_tac|]. split; [exact Inv_cv0|]. split; [exact fresh_cv0|]. split.
+  - do 4 eexists. split; [vm_compute; reflexivity|]. split; [vm_compute; reflexivity|]. split; [vm_compute; discriminate|].
+    split; vm_compute; reflexivity.
+  - split; [intros H; apply helper_underscore in H; discriminate | right; left; eexists; eexists; reflexivity].
+Qed.
+
+(* (12) c02_steps: SEVERAL STEPS (extensions on), from the converter's initial state.  The program is
+     initProgram(inc); (beginStep; directives; endStep) for every list of directives in pre ++ post      (CInit inc :: body ..)
+   and pre is any non-empty prefix of its steps: the statement is about the program ACCUMULATED UP TO EVERY STEP k = |pre|.
+   Reference semantics of incremental programs: after step k the program is Sem.of_calls (concat pre) - rules, minimize
+   statements and outputs of the steps add up; an atom declared external is free / true / false by its last declaration as
+   long as NO RULE OF ANY STEP SO FAR has it in its head (Sem.ext_rule), so an external declared in step i and defined in
+   step j > i is free at steps i..j-1 and defined from step j on.  (This replaces `fresh_step` of the one-step theorem: the
+   proof's invariant is "head flags = heads of the earlier steps", ProofsSteps.steps_facts.)
+   Conclusion: the converter's run on the first k steps is a prefix of its run on the whole program (out = outk ++ rest), the
+   images of the atoms mapped after step k are the same in the final map m = img s, and between Pin = the accumulated
+   input and Pout = Sem.of_calls outk (everything emitted up to step k: rules, external declarations, one compute statement
+   `not false_atom` per step, minimize statements, symbol table) there is the same bijection of answer sets as in (9)/(11):
+   agreement on the mapped atoms, same shown names modulo the helper names, per-priority cost equal up to negs; and
+   the external status of every mapped atom is the same on both sides (13). *)
+Theorem c02_steps : forall inc pre post s out,
+  pre <> [] -> Forall (fun ds => forallb okx ds = true) (pre ++ post) -> Forall (Forall call_wfX) (pre ++ post) ->
+  cv_run true cv0 (CInit inc :: body (pre ++ post)) = Ok (s, out) -> next s <= 2 ^ smid_bits ->
+  exists sk outk rest, cv_run true cv0 (CInit inc :: body pre) = Ok (sk, outk) /\ out = outk ++ rest /\
+    (forall a, img sk a <> 0 -> img s a = img sk a) /\
+    let m := img s in let acc := concat pre in let Pin := of_calls acc in let Pout := of_calls outk in
+    let atoms := xatoms m acc in
+    (exists fw : interp -> interp,
+      (forall a b, In a atoms -> In b atoms -> m a = m b -> a = b) /\
+      (forall X, answer Pin X ->
+         answer Pout (fw X) /\ (forall a, In a atoms -> fw X (m a) = X a) /\
+         (forall n, ~ helper_name n -> (shown Pin X n <-> shown Pout (fw X) n)) /\
+         (forall prio, cost (p_min Pout) prio (fw X) = cost (p_min Pin) prio X - negs acc prio)) /\
+      (forall X', answer Pout X' -> answer Pin (pull m atoms X') /\ forall y, fw (pull m atoms X') y = X' y) /\
+      (forall X a, answer Pin X -> pull m atoms (fw X) a = X a)) /\
+    ((forall a, m a <> 0 -> ext_status Pout (m a) = ext_status Pin a) /\
+     (forall y w, ext_status Pout y = Some w -> exists a, y = m a /\ In a atoms /\ ext_status Pin a = Some w) /\
+     (forall a w, ext_status Pin a = Some w -> In a atoms /\ m a <> 0)).
+Proof. exact equiv_steps. Qed.
+Print Assumptions c02_steps.
+
+(* the same from ANY start state that satisfies the map invariant and is fresh (no pending entries, no head flags; earlier
+   atom images, show flags and symTab_ entries arbitrary), for the steps alone (body steps = the beginStep / directives /
+   endStep calls), and relative to the atom map of ANY later state sf.  c02_steps and c02_equiv_heu_step are instances. *)
+Theorem c02_steps_general : forall steps s0 s out sf,
+  steps <> [] -> Forall (fun ds => forallb okx ds = true) steps -> Forall (Forall call_wfX) steps ->
+  Inv s0 -> fresh_step s0 -> cv_run true s0 (body steps) = Ok (s, out) -> good s sf -> next sf <= 2 ^ smid_bits ->
+  let m := img sf in let acc := concat steps in let Pin := of_calls acc in let Pout := of_calls out in
+  let atoms := xatoms m acc in
+  (exists fw : interp -> interp,
+    (forall a b, In a atoms -> In b atoms -> m a = m b -> a = b) /\
+    (forall X, answer Pin X ->
+       answer Pout (fw X) /\ (forall a, In a atoms -> fw X (m a) = X a) /\
+       (forall n, ~ helper_name n -> (shown Pin X n <-> shown Pout (fw X) n)) /\
+       (forall prio, cost (p_min Pout) prio (fw X) = cost (p_min Pin) prio X - negs acc prio)) /\
+    (forall X', answer Pout X' -> answer Pin (pull m atoms X') /\ forall y, fw (pull m atoms X') y = X' y) /\
+    (forall X a, answer Pin X -> pull m atoms (fw X) a = X a)) /\
+  (forall a, m a <> 0 -> ext_status Pout (m a) = ext_status Pin a) /\
+  (forall y w, ext_status Pout y = Some w -> exists a, y = m a /\ In a atoms /\ ext_status Pin a = Some w) /\
+  (forall a w, ext_status Pin a = Some w -> In a atoms /\ m a <> 0).
+Proof. exact steps_equiv_status. Qed.
+Print Assumptions c02_steps_general.
+
+(* (13) c02_external_status: the separate statement about externals (extensions on, any number of steps, every prefix).
+   ext_status P a = None when a rule of P has a in its head, otherwise the value of the last external declaration of a
+   (Some 0 free, Some 1 true, Some 2 false, Some 3 release) or None when there is none.  After every step k:
+   every external atom of the accumulated input is a mapped atom and its image has the SAME status and value in the emitted
+   program; every external atom of the emitted program is the image of an input external with that value; a mapped atom
+   that is not (or no longer: defined by a later step) external in the input is not external in the output; and in
+   corresponding interpretations (X' agrees with X on the mapped atoms - as fw X and pull X' of c02_steps do) an external
+   atom has the same truth value on both sides. *)
+Theorem c02_external_status : forall inc pre post s out,
+  pre <> [] -> Forall (fun ds => forallb okx ds = true) (pre ++ post) -> Forall (Forall call_wfX) (pre ++ post) ->
+  cv_run true cv0 (CInit inc :: body (pre ++ post)) = Ok (s, out) -> next s <= 2 ^ smid_bits ->
+  exists sk outk rest, cv_run true cv0 (CInit inc :: body pre) = Ok (sk, outk) /\ out = outk ++ rest /\
+    let m := img s in let acc := concat pre in let Pin := of_calls acc in let Pout := of_calls outk in
+    let atoms := xatoms m acc in
+    (forall a w, ext_status Pin a = Some w -> In a atoms /\ m a <> 0 /\ ext_status Pout (m a) = Some w) /\
+    (forall y w, ext_status Pout y = Some w -> exists a, y = m a /\ In a atoms /\ ext_status Pin a = Some w) /\
+    (forall a, m a <> 0 -> ext_status Pin a = @None Z -> ext_status Pout (m a) = @None Z) /\
+    (forall X X' : interp, (forall a, In a atoms -> X' (m a) = X a) ->
+       forall a w, ext_status Pin a = Some w -> X' (m a) = X a).
+Proof. exact steps_external_status. Qed.
+Print Assumptions c02_external_status.
+
+Definition step_a : list call :=
+  [CRule 1 [1; 2] []; CExternal 5 0; CExternal 6 1; CRule 0 [3] [5; 6]; COutput [97] [3]; CMin 0 [(3, -2)]; CHeuristic 5 0 1 1 [1]].
+Definition step_b : list call :=
+  [CRule 0 [5] [1]; CExternal 6 3; CExternal 7 0; COutput [98] [5; -7]; CMin 0 [(5, 1)]; CEdge 0 1 [5]].
+Example c02_steps_nonvacuous :
+  (* step 1 declares 5 free and 6 true; step 2 DEFINES 5 (5 :- 1), releases 6 and declares 7 free.
+     Input status of 5 / 6 / 7: after step 1  free / true / -,  after step 2  - (defined) / release / free;
+     the images are 4 / 5 / 7 and the emitted program has exactly these statuses after step 1 and after step 2. *)
+  Forall (fun ds => forallb okx ds = true) [step_a; step_b] /\ Forall (Forall call_wfX) [step_a; step_b] /\
+  exists s out, cv_run true cv0 (CInit true :: body ([step_a] ++ [step_b])) = Ok (s, out) /\ next s <= 2 ^ smid_bits /\
+    map (img s) [5; 6; 7] = [4; 5; 7] /\ decls out = [(4, 0); (5, 1); (5, 3); (7, 0)] /\
+    map (ext_status (of_calls (concat [step_a]))) [5; 6; 7] = [Some 0; Some 1; None] /\
+    map (ext_status (of_calls (concat [step_a; step_b]))) [5; 6; 7] = [None; Some 3; Some 0] /\
+    map (ext_status (of_calls out)) [4; 5; 7] = [None; Some 3; Some 0] /\
+    exists s1 out1, cv_run true cv0 (CInit true :: body [step_a]) = Ok (s1, out1) /\
+      map (ext_status (of_calls out1)) [4; 5; 7] = [Some 0; Some 1; None] /\
+      mins_of out = [(0, [(-6, 2)]); (0, [(4, 1)])] /\
+      outs_of out = [(heu_text (atom_name 4) [108; 101; 118; 101; 108] 1 1, [2]); (atom_name 4, [4]); ([97], [6]);
+                     ([98], [8]); (edge_name 0 1, [9])].
+Proof.
+  split; [repeat constructor|]. split; [unfold step_a, step_b; wf_tac|].
+  do 2 eexists. split; [vm_compute; reflexivity|]. split; [vm_compute; discriminate|].
+  repeat (split; [vm_compute; reflexivity|]).
+  do 2 eexists. split; [vm_compute; reflexivity|]. repeat split; vm_compute; reflexivity.
+Qed.
+
+(* (14) c02_equiv - the end-to-end statement over whole programs run through the converter from its initial state.
+   (A) extensions on: initProgram(any); one or more steps of rule / weight rule / minimize / output / external / heuristic /
+       edge directives: after EVERY step the accumulated input and everything emitted so far are equivalent (c02_steps);
+   (B) extensions off: initProgram(false); the one step smodels format has, directives rule / weight rule / minimize /
+       output / external: input and emitted program are equivalent with ALL shown names equal (c02_equiv_partial2, ext off;
+       externals have become one choice rule and facts).
+   Equivalent = under the converter's final atom map m, injective on the mapped atoms: fw / pull are mutually inverse
+   bijections between the answer sets, agree on every mapped atom, preserve the shown names ((A): modulo the generated
+   helper names `_heuristic(..)`, `_edge(..)`, `_atom(..)`; a user name of one of these forms is not compared), and the cost per priority up to
+   a constant; (A) same status and value of every external atom (c02_external_status).
+   DOMAIN.  Together with c02_errors this covers every program within the AbstractProgram contract that the converter and
+   the smodels writer accept: project / assume / theory directives, heuristic / edge / initProgram(true) without the
+   extensions, minimize weight -2^31 are rejected (c02_errors); weight rules with a negative bound are covered here although
+   the writer rejects them.  Side conditions, all stated as hypotheses: the aspif contract on the input calls (call_wf /
+   call_wfX: head type 0/1, head atoms > 0, literals <> 0, body weights >= 0, external value in 0..3, output names without
+   NUL) and next_ <= 2^28 (the smId bit-field).
+   NOT COVERED, and not true: extensions off with SEVERAL steps after initProgram(false).  Neither the converter nor
+   SmodelsOutput rejects that call sequence (c02_errors: no unsupported call), but it violates the AbstractProgram contract
+   (a non-incremental program has exactly one step; smodels format without the extensions has no steps), and there the
+   emitted program has an answer set the input lacks: c02_noext_steps_refuted. *)
+Theorem c02_equiv :
+  (forall inc pre post s out,
+     pre <> [] -> Forall (fun ds => forallb okx ds = true) (pre ++ post) -> Forall (Forall call_wfX) (pre ++ post) ->
+     cv_run true cv0 (CInit inc :: body (pre ++ post)) = Ok (s, out) -> next s <= 2 ^ smid_bits ->
+     exists sk outk rest, cv_run true cv0 (CInit inc :: body pre) = Ok (sk, outk) /\ out = outk ++ rest /\
+       (forall a, img sk a <> 0 -> img s a = img sk a) /\
+       let m := img s in let acc := concat pre in let Pin := of_calls acc in let Pout := of_calls outk in
+       let atoms := xatoms m acc in
+       (exists fw : interp -> interp,
+         (forall a b, In a atoms -> In b atoms -> m a = m b -> a = b) /\
+         (forall X, answer Pin X ->
+            answer Pout (fw X) /\ (forall a, In a atoms -> fw X (m a) = X a) /\
+            (forall n, ~ helper_name n -> (shown Pin X n <-> shown Pout (fw X) n)) /\
+            (forall prio, cost (p_min Pout) prio (fw X) = cost (p_min Pin) prio X - negs acc prio)) /\
+         (forall X', answer Pout X' -> answer Pin (pull m atoms X') /\ forall y, fw (pull m atoms X') y = X' y) /\
+         (forall X a, answer Pin X -> pull m atoms (fw X) a = X a)) /\
+       ((forall a, m a <> 0 -> ext_status Pout (m a) = ext_status Pin a) /\
+        (forall y w, ext_status Pout y = Some w -> exists a, y = m a /\ In a atoms /\ ext_status Pin a = Some w) /\
+        (forall a w, ext_status Pin a = Some w -> In a atoms /\ m a <> 0))) /\
+  (forall ds s out,
+     forallb okc ds = true -> Forall call_wf ds ->
+     cv_run false cv0 (CInit false :: body [ds]) = Ok (s, out) -> next s <= 2 ^ smid_bits ->
+     let m := img s in let Pin := of_calls ds in let Pout := of_calls out in let atoms := step_atoms m ds in
+     exists fw : interp -> interp,
+       (forall a b, In a atoms -> In b atoms -> m a = m b -> a = b) /\
+       (forall X, answer Pin X ->
+          answer Pout (fw X) /\ (forall a, In a atoms -> fw X (m a) = X a) /\
+          (forall n, shown Pin X n <-> shown Pout (fw X) n) /\
+          (forall prio, cost (p_min Pout) prio (fw X) = cost (p_min Pin) prio X - negs ds prio)) /\
+       (forall X', answer Pout X' -> answer Pin (pull m atoms X') /\ forall y, fw (pull m atoms X') y = X' y) /\
+       (forall X a, answer Pin X -> pull m atoms (fw X) a = X a)).
+Proof. exact (conj equiv_steps equiv_noext_clean). Qed.
+Print Assumptions c02_equiv.
+
+(* the accepted call sequence outside the contract: extensions off, initProgram(false), step 1 `#external 1.`, step 2
+   `1 :- 2.`: converter and writer accept it, 1 is mapped to 2, the emitted program (choice rule {2} of step 1, rule
+   2 :- 3 of step 2) has an answer set containing the image of atom 1, and no answer set of the accumulated input contains 1 *)
+Theorem c02_noext_steps_refuted :
+  wf_from 0 refute_prog = true /\ existsb (unsupported false) refute_prog = false /\
+  exists s w out, conv_write false cv0 sw0 refute_prog = Ok (s, w, out) /\ next s <= 2 ^ smid_bits /\ img s 1 = 2 /\
+    (exists X', answer (of_calls out) X' /\ X' (img s 1) = true) /\
+    (forall X, answer (of_calls refute_in) X -> X 1 = false).
+Proof. exact noext_steps_refuted. Qed.
+Print Assumptions c02_noext_steps_refuted.
+
+Example c02_equiv_nonvacuous :
+  (* (A) is instantiated by c02_steps_nonvacuous (two steps, k = 1 and k = 2) and c02_equiv_heu_step_nonvacuous;
+     (B) by the program of c02_equiv_partial2_nonvacuous run from initProgram(false) *)
+  let ds := [CRule 1 [1; 2] []; CWRule 1 [3; 4] 2 [(1, 1); (2, 1)]; CRule 0 [] [3; 4]; COutput [97] [1]; COutput [98] [1; -2];
+             CExternal 5 0; CExternal 6 1; CRule 0 [7] [5; 6]; CMin 0 [(1, -3); (7, 1)]; CMin 0 [(2, 2)]] in
+  forallb okc ds = true /\ Forall call_wf ds /\
+  (exists s out, cv_run false cv0 (CInit false :: body [ds]) = Ok (s, out) /\ next s <= 2 ^ smid_bits /\
+     outs_of out = [([97], [2]); ([98], [7])] /\ asm_of out = [-1]) /\
+  (exists sk outk, cv_run true cv0 (CInit true :: body [step_a]) = Ok (sk, outk) /\ sk <> cv0) /\
+  [step_a] <> [] /\ [step_a; step_b] = [step_a] ++ [step_b].
+Proof.
+  cbv zeta. split; [reflexivity|]. split; [wf_tac|]. split.
+  - do 2 eexists. split; [vm_compute; reflexivity|]. split; [vm_compute; discriminate|]. split; vm_compute; reflexivity.
+  - split; [do 2 eexists; split; [vm_compute; reflexivity | vm_compute; discriminate]|]. split; [discriminate | reflexivity].
 Qed.
